@@ -108,6 +108,13 @@ type RuleEvent struct {
 	Msg   *M
 }
 
+// RoundChange is one transition of a process from one round to another.
+type RoundChange struct {
+	Proc     int64
+	From, To int64
+	Rule     qbft.UponRule
+}
+
 type Proc struct {
 	ID        int64
 	Started   bool
@@ -143,23 +150,24 @@ type Hooks struct {
 }
 
 type Sim struct {
-	mu       sync.Mutex
-	N        int
-	Inst     int64
-	Def      qbft.Definition[int64, int64, int64]
-	Byz      map[int64]bool
-	Procs    []*Proc
-	Pending  []Delivery
-	Sent     []*M // every honest top-level broadcast, in order
-	Injected []*M // every adversary top-level message
-	Decided  []Decision
-	Unjusts  []Unjust
-	Rules    []RuleEvent
-	RoundChg int
-	Hooks    Hooks
-	LeaderFn func(inst, round, proc int64) bool
-	ctx      context.Context
-	cancel   context.CancelFunc
+	mu           sync.Mutex
+	N            int
+	Inst         int64
+	Def          qbft.Definition[int64, int64, int64]
+	Byz          map[int64]bool
+	Procs        []*Proc
+	Pending      []Delivery
+	Sent         []*M // every honest top-level broadcast, in order
+	Injected     []*M // every adversary top-level message
+	Decided      []Decision
+	Unjusts      []Unjust
+	Rules        []RuleEvent
+	RoundChg     int
+	RoundChanges []RoundChange // every round change of every process, with the rule that caused it
+	Hooks        Hooks
+	LeaderFn     func(inst, round, proc int64) bool
+	ctx          context.Context
+	cancel       context.CancelFunc
 }
 
 func New(n int, inst int64, leader func(inst, round, proc int64) bool, byz map[int64]bool, hooks Hooks) *Sim {
@@ -223,9 +231,10 @@ func (s *Sim) defFor(p *Proc) qbft.Definition[int64, int64, int64] {
 		s.Rules = append(s.Rules, RuleEvent{Proc: process, Round: round, Rule: rule, Msg: FromQ(msg)})
 		s.mu.Unlock()
 	}
-	d.LogRoundChange = func(_ context.Context, _ int64, _, _, _ int64, _ qbft.UponRule, _ []QMsg) {
+	d.LogRoundChange = func(_ context.Context, _ int64, process, round, newRound int64, rule qbft.UponRule, _ []QMsg) {
 		s.mu.Lock()
 		s.RoundChg++
+		s.RoundChanges = append(s.RoundChanges, RoundChange{Proc: process, From: round, To: newRound, Rule: rule})
 		s.mu.Unlock()
 	}
 	d.LogUnjust = func(_ context.Context, _ int64, process int64, msg QMsg) {
